@@ -405,7 +405,11 @@ sqf::runtime::runtime::result sqf::runtime::runtime::execute(sqf::runtime::runti
                             // The context still sleeps. Nothing may get executed for a long time,
                             // so the maximum runtime has to be enforced here as well.
                             if (m_configuration.max_runtime != std::chrono::milliseconds::zero() &&
+#ifdef SQFVM_RUNTIME_VERIF
+                                m_configuration.max_runtime + m_run_timestamp < sqf::verif::now())
+#else
                                 m_configuration.max_runtime + m_run_timestamp < std::chrono::system_clock::now())
+#endif // SQFVM_RUNTIME_VERIF
                             {
                                 __logmsg(logmessage::runtime::MaximumRuntimeReached(
                                     m_context_active->empty() ? sqf::runtime::diagnostics::diag_info{} : m_context_active->current_frame().diag_info_from_position(),
